@@ -3,10 +3,18 @@ package checks
 
 import (
 	_ "verif/h/checks/c01"
+	_ "verif/h/checks/c01t"
 	_ "verif/h/checks/c02"
+	_ "verif/h/checks/c04"
+	_ "verif/h/checks/c09"
 	_ "verif/h/checks/c10"
+	_ "verif/h/checks/c11"
+	_ "verif/h/checks/c12"
+	_ "verif/h/checks/c14"
 	_ "verif/h/checks/c16"
 	_ "verif/h/checks/c17"
 	_ "verif/h/checks/c17sim"
+	_ "verif/h/checks/c18"
+	_ "verif/h/checks/c19"
 	_ "verif/h/checks/shimtest"
 )
